@@ -17,14 +17,14 @@ CLAIMED = {
  "C10": ("4 C10", "Random histories (40 calls) over a pool of 4 elements and 3 scalars with deliberate aliasing; the full pool is observed after every call, so frame conditions and copy independence are checked at every step; SecpAbs is additionally explored exhaustively by TLC on a toy curve."),
  "C13": ("4 C13", "SEqual/SIsZero/SIsOne/SLessOrEqual/SCSelect actions; random and limb-pattern pairs; condition words 0, 1, 2, 2^32, 2^63, 2^64-1, random; nil operands."),
  "C14": ("4 C14", "SBits action: all 256 powers of two, boundary values, values produced by arithmetic."),
+ "C15": ("4 C15", "Mem.tla: caller buffers and result intervals as state; Call requires every byte of every caller buffer (whole backing array, three layouts: len=cap, len<cap, interior sub-slice) unchanged and every returned slice disjoint from all caller buffers and all earlier results; Probe re-observes values after the caller scribbled over returned slices / input buffers. Element and scalar arguments are covered by the frame conditions of C10's histories."),
+ "C16": ("4 C16", "2..32 goroutines (GOMAXPROCS 1/2/4/16) call the API on own receivers with shared read-only elements, scalars, message, DST (spare capacity) and encodings in a -race binary; every goroutine's history is validated by TLC against the sequential specification (each call returns its sequential result); race-detector reports become RaceReport events for which the specification has no action."),
+ "C17": ("4 C17", "Link.tla: the hash registry filled by the init functions of the linked packages; the library's import closure is read from the working tree (go list -deps) and TLC enumerates every program (all sets of extra registry-filling packages); real probe programs (plain binaries) are built and run for chosen / all sets, their outcome is checked against the model's prediction and the property, their results against the RFC 9380 specification."),
  "C18": ("4 C18", "SRandom action over scripted entropy sources (crypto/rand.Reader swapped): blocks 0 and n force retries, every chunking of Reads, source failing at every kind of position; RandomSrc!Outcome decides result / panic."),
 }
 NOT_YET = {
  "C11": "check not built yet in this revision (planned: TLC validation of SSWU / isogeny traces, MC_Sswu on toy fields)",
  "C12": "check not built yet in this revision (planned: TLC validation of internal/field traces)",
- "C15": "check not built yet in this revision (planned: Mem.tla + memory-snapshot traces)",
- "C16": "check not built yet in this revision (planned: Conc.tla + race-detector traces)",
- "C17": "check not built yet in this revision (planned: Link.tla + probe binaries)",
  "C19": "check not built yet in this revision (planned: Schedule.tla + field-operation traces)",
 }
 
